@@ -115,16 +115,26 @@ def run(ck):
             continue
         if still.get(k.get("id")):
             ck.known(k.get("id"), k["what"])
-    if any(k.get("id") == "D21" for k in known):
-        from props import C01
-        big = {"k": "rule", "id": 1, "rule": C01.d21_rule(), "docs": [D({"g": "y0"})], "sw": [0, 8]}
-        out = lib.run_harness_only([big], "C03d21")
-        r = rulebase.parse_rule_line(out[1])
-        if r["load"] == "ok" and r["res"].get(8) == "x":
-            for k in known:
-                if k.get("id") == "D21":
-                    ck.known("D21", k["what"])
-        evals += 1
+    from props import C01
+    d21_known = any(k.get("id") == "D21" for k in known)
+    big = {"k": "rule", "id": 1, "rule": C01.d21_rule(), "docs": [D({"g": "y0"}), D({})], "sw": [0, 8, 15]}
+    out = lib.run_harness_only([big], "C03d21")
+    r = rulebase.parse_rule_line(out[1])
+    if r["load"] == "ok":
+        for sw in (8, 15):
+            res = r["res"].get(sw, "")
+            if res == "x" or "p" in res:
+                if d21_known:
+                    for k in known:
+                        if k.get("id") == "D21":
+                            ck.known("D21", k["what"])
+                else:
+                    ck.violation({"property": "C03", "kind": "direct",
+                                  "what": "optimise() or matches() panics on an or-group over more than 55296 distinct fields with the matrix switch",
+                                  "rule": "(generated: props.C01.d21_rule())", "result": res,
+                                  "replay_case": {"generated": "props.C01.d21_rule()", "sw": [0, sw]}})
+                    direct_failed.add(-21)
+    evals += 1
     ck.coverage["evaluations"] = evals
     ck.coverage["distinct_nontrivial"] = len(nontrivial)
     ck.coverage["rule"] = (
